@@ -94,7 +94,66 @@ func equalityLaws(t *core.Tape, st *core.Stats, ts *world.TypeSpec, model *world
 		kind := ""
 		strictOnly := false
 
-		switch t.Draw(4) {
+		var many *world.RelSpec
+
+		for ri := range ts.Rels {
+			if !ts.Rels[ri].ToOne {
+				many = &ts.Rels[ri]
+			}
+		}
+
+		choice := t.Draw(5)
+		if choice == 4 && many == nil {
+			choice = t.Draw(4)
+		}
+
+		switch choice {
+		case 4: // two ID lists that differ but are equal once joined by a separator
+			sep := []string{",", " ", "", "|", "\x00"}[t.Draw(5)]
+			p, q, r := "p", "q", "r"
+			a := []string{p + sep + q, r}
+			b := []string{p, q + sep + r}
+
+			if sep == "" {
+				a, b = []string{"pq", "r"}, []string{"p", "qr"}
+			}
+
+			// both resources are built afresh: one holds a, the other b
+			base := model.Clone()
+			base.Vals[many.Name] = a
+			other.Vals[many.Name] = b
+			kind = "join-collision"
+
+			st.Inc("probe:equal-pair-join-collision")
+
+			for _, wrapped := range []bool{false, true} {
+				ra, pa, ea := materialise(base, wrapped)
+				rb, pb, eb := materialise(other, !wrapped)
+
+				if pa != nil || pb != nil || ea != nil || eb != nil {
+					continue
+				}
+
+				for _, strict := range []bool{false, true} {
+					r1, p1 := eq(strict, ra, rb)
+					r2, p2 := eq(strict, rb, ra)
+
+					if p1 != nil || p2 != nil {
+						continue
+					}
+
+					npairs++
+
+					if r1 || r2 {
+						v := viol(P, "equal-implies-same", fname[strict], kind, "%s holds between resources whose to-many relationship %q holds %q and %q", fname[strict], many.Name, a, b)
+						if st.Fail(v) {
+							return npairs, v
+						}
+					}
+				}
+			}
+
+			continue
 		case 0: // another type name, same fields and values
 			cts := *ts
 			cts.Name = ts.Name + "x"
